@@ -95,6 +95,11 @@ def make_header(vc):
     spb = Int('samples_per_block')
     b = mkobj(vc, BK, samples_per_block=spb)
     f = L.FileW('out.raw')
+    # the header is written at an arbitrary position of the file (after any number of earlier blocks of any size): the padding is a
+    # function of the header's own size, not of the position
+    pos0 = Int('bytes_already_in_the_file')
+    vc.assume(pos0 >= 0)
+    f.nbytes = pos0
     pk0 = hd['PKTIDX']
     keys0 = list(hd)
     vals0 = dict(hd)
@@ -111,7 +116,7 @@ def make_header(vc):
     raw = 80 * (n + 1)
     pad = (512 - raw % 512) % 512
     want = raw + sym_if(on, pad, 0) if not isinstance(on, bool) else raw + (pad if on else 0)
-    vc.ensure('C04/_make_header/post/header-size=80*(cards+1)+padding-to-512-iff-DIRECTIO-and-unaligned', eq(f.nbytes, want))
+    vc.ensure('C04/_make_header/post/header-size=80*(cards+1)+padding-to-512-iff-DIRECTIO-and-unaligned', eq(f.nbytes, pos0 + want))
     texts = [w for w in f.log if w[0] == 'text']
     vc.ensure('C04/_make_header/post/one-80-byte-card-per-entry-plus-END', And(len(texts) == n + 1, *[eq(w[1], 80) for w in texts]))
     vc.ensure('C04/_make_header/post/END-card-last', isinstance(texts[-1][2], bytes) and texts[-1][2] == f"{'END':<80}".encode())
